@@ -282,7 +282,7 @@ func DeleteFiles(dir string, names []string, ioErrors int32, dryRun bool, rules 
 // GenOpts selects the generator behaviour.
 type GenOpts struct {
 	DryRun, PreserveLinks, PreserveDevices, PreserveSpecials, PreservePerms, PreserveTimes bool
-	PreserveUid, PreserveGid, AlwaysChecksum, IgnoreTimes                                bool
+	PreserveUid, PreserveGid, AlwaysChecksum, IgnoreTimes                                  bool
 }
 
 // RecvGenerator runs the real recvGenerator for one entry against dir and
